@@ -153,6 +153,8 @@ func runC04(c *Check) {
 	ruleRestartReconciliation(c, p, "C04-R2")
 	ruleCacheFiles(c, p, "C04-R5")
 	rulePersistedStateLoadable(c, p, "C04-R6")
+	c.Doc("C04-R7", "error discipline: in the block package and the store, no error returned by the store, the datastore, the executor, the sequencer or the DA layer is discarded (a discarded error of a durable write lets the step continue as if it had been written).")
+	ruleNoDroppedLayerErrors(c, p, "C04-R7", []string{rootPath + "/block", storePkg})
 }
 
 func runC05(c *Check) {
@@ -639,4 +641,88 @@ func rulePersistedStateLoadable(c *Check, p *Prog, rule string) {
 		c.Unk(rule, "UpdateState-sites", "", "", "anchor lost: no Store.UpdateState call site")
 	}
 	c.MinInstances(rule, 2)
+}
+
+// ruleNoDroppedLayerErrors: every call, in the given packages, of a method of another layer's
+// interface (store, datastore, executor, sequencer, DA) whose last result is an error uses that
+// result (a branch, a return, a log argument …). Reports each call site that discards it.
+func ruleNoDroppedLayerErrors(c *Check, p *Prog, rule string, pkgs []string) {
+	layer := func(name string) bool {
+		for _, pre := range []string{"(" + rootPath + "/pkg/store.Store).", "(" + rootPath + "/core/execution.Executor).", "(" + rootPath + "/core/sequencer.Sequencer).", "(" + rootPath + "/core/da.DA).", "(github.com/ipfs/go-datastore."} {
+			if strings.HasPrefix(name, pre) {
+				return true
+			}
+		}
+		return false
+	}
+	inPkgs := map[string]bool{}
+	for _, k := range pkgs {
+		inPkgs[k] = true
+	}
+	perPkg := map[string]int{}
+	for _, fn := range p.Funcs {
+		pk := fnPkg(fn)
+		if pk == nil || !inPkgs[pk.Pkg.Path()] {
+			continue
+		}
+		for _, b := range fn.Blocks {
+			for _, in := range b.Instrs {
+				var cc *ssa.CallCommon
+				var val ssa.Value
+				deferred := false
+				switch x := in.(type) {
+				case *ssa.Call:
+					cc, val = x.Common(), x
+				case *ssa.Defer:
+					cc, deferred = x.Common(), true
+				case *ssa.Go:
+					cc, deferred = x.Common(), true
+				}
+				if cc == nil || !cc.IsInvoke() || !layer(commonName(cc)) {
+					continue
+				}
+				res := cc.Signature().Results()
+				if res.Len() == 0 || res.At(res.Len()-1).Type().String() != "error" {
+					continue
+				}
+				name := commonName(cc)
+				if strings.HasSuffix(name, ".Close") && deferred {
+					continue // closing a read handle: nothing was written through it
+				}
+				perPkg[pk.Pkg.Path()]++
+				used := false
+				if !deferred && val != nil {
+					if res.Len() == 1 {
+						used = len(*val.Referrers()) > 0
+					} else {
+						for _, r := range *val.Referrers() {
+							if ex, ok := r.(*ssa.Extract); ok && ex.Index == res.Len()-1 && len(*ex.Referrers()) > 0 {
+								used = true
+							}
+						}
+					}
+				}
+				// debug references do not count as uses
+				if used && res.Len() == 1 {
+					used = false
+					for _, r := range *val.Referrers() {
+						if _, dbg := r.(*ssa.DebugRef); !dbg {
+							used = true
+						}
+					}
+				}
+				if !used {
+					c.Bad(rule, fnShort(fn)+" ⟂ discards error of "+shortName(name), fnName(fn), p.InstrPos(in), "the error of "+shortName(name)+" is discarded: the step continues as if the operation had succeeded", nil)
+				}
+			}
+		}
+	}
+	for _, k := range pkgs {
+		if perPkg[k] == 0 {
+			c.Unk(rule, shortName(k)+" ⟂ layer-calls", "", "", "anchor lost: no call of another layer's interface found in "+k)
+			continue
+		}
+		c.OK(rule, shortName(k)+" ⟂ no-layer-error-discarded", "", "", fmt.Sprintf("%d calls of store / datastore / executor / sequencer / DA methods returning an error; the error is used at every one not reported", perPkg[k]), true)
+	}
+	c.MinInstances(rule, len(pkgs))
 }
